@@ -111,7 +111,7 @@ let show_table (before : etable list) (t : etable) : string =
   let cols = Stdlib.List.map (fun c -> hexs (string_of_bytes c.rc_name)) t.et_cols in
   let old = Stdlib.List.find_opt (fun b -> str_eqb b.et_name t.et_name) before in
   let masked c =
-    c.rc_gen ||
+    c.rc_gen || (match c.rc_defval with VVal t -> string_of_bytes t = "'?'" | VNull -> false) ||
     (match old with
      | None -> false
      | Some b -> Stdlib.List.exists (fun oc -> str_eqb oc.rc_name c.rc_name && not (str_eqb oc.rc_type c.rc_type)) b.et_cols) in
